@@ -210,7 +210,7 @@ int main(int argc, char** argv){ vr::parse(argc, argv);
   long xs = vr::i64("xs", 2) % 7 + 0, ys = vr::i64("ys", 3) % 7; if (xs < 1) xs = 1; if (ys < 1) ys = 1;
   long x0 = vr::i64("x0", 1) % 3, y0 = vr::i64("y0", 2) % 3, sw = vr::i64("w", 3) % 4, sh = vr::i64("h", 2) % 4; if (x0<0)x0=0; if(y0<0)y0=0; if(sw<0)sw=0; if(sh<0)sh=0;
   int bad = 0;
-  for (long W = 1; W <= 7 && !bad; W++) for (long H = 1; H <= 6 && !bad; H++) {
+  for (long W = 0; W <= 7 && !bad; W++) for (long H = 0; H <= 6 && !bad; H++) {          // empty shapes included
     std::vector<unsigned char> buf((3*W + 5) * H + 8);
     rgb8_view_t v = interleaved_view(W, H, (rgb8_pixel_t*)buf.data(), 3*W + 5);
     bad |= all(v, xs, ys, x0, y0, sw, sh);
